@@ -720,4 +720,90 @@ example : (run (St.init 2 false) (betweenUnsubAndAck.take 6)).1.core.mgr.sizes =
     (run (St.init 2 false) (betweenUnsubAndAck ++ [.recv tAck1])).1.core.mgr.sizes = (2, 1, 0, 0) ∧
     (run (St.init 2 false) (betweenUnsubAndAck ++ [.recv tAck1, .recv tCloseS])).1.core.mgr.sizes = (0, 0, 0, 0) := by decide
 
+/-! ### C18.7 — the subscribe-response step does not depend on the caller still waiting -/
+
+/-- What the subscribe-response step does to the four tables is the same whether the caller still waits for the
+outcome or has abandoned the subscribe call (future dropped / timed out): the tables after the step do not depend on
+`dead`.  In particular every refusal (error response, result that is no id, id in use) releases the reserved
+unsubscribe slot also when nobody is there to be told (seeded mutant C18-R9 returned before the release when handing
+the error to a gone caller failed). -/
+theorem c18_subscribe_exit_caller_irrelevant (st : Core) (dead' : List Nat) (r : Response) (uid : Id) (t : Ticket) (um : Text) :
+    (completeSubscribe { st with dead := dead' } r uid t um).1.mgr = (completeSubscribe st r uid t um).1.mgr := by
+  unfold completeSubscribe
+  cases hp : r.payload with
+  | error e => rfl
+  | result raw =>
+    simp only
+    cases hd : decodeSubId raw with
+    | none => rfl
+    | some s =>
+      simp only
+      cases hins : st.mgr.insertSubscription r.id uid s st.chans.length um with
+      | none => rfl
+      | some m' =>
+        simp only
+        by_cases h1 : Core.alive { st with dead := dead' } t = true <;> by_cases h2 : st.alive t = true <;>
+          simp [h1, h2, abandonedSubscribe, modChan_mgr, Core.newChan]
+
+/-- the abandoned caller spelled out: all three refusals leave no reserved slot and tell nobody (`dropped`); an
+acceptance installs the subscription and queues `SubscriptionClosed`, so that the send task unsubscribes at once -/
+theorem c18_subscribe_exit_abandoned_caller (st : Core) (r : Response) (uid : Id) (t : Ticket) (um : Text)
+    (hgone : st.alive t = false) :
+    ((completeSubscribe st r uid t um).1.mgr = st.mgr.releaseReservedSlot uid ∧
+      alookup uid (completeSubscribe st r uid t um).1.mgr.requests ≠ some (.pendingCall none) ∧
+      ∃ o, (completeSubscribe st r uid t um).2 = [.dropped t o] ∧ ∀ c s, o ≠ .subscribed c s) ∨
+    (∃ s, alookup s st.mgr.subs = none ∧
+      (completeSubscribe st r uid t um).1.mgr =
+          { st.mgr with requests := (r.id, .sub uid st.chans.length um) :: st.mgr.requests,
+                        subs := (s, r.id) :: st.mgr.subs } ∧
+      (completeSubscribe st r uid t um).2 =
+          [.dropped t (.subscribed st.chans.length s), .toFront (.subscriptionClosed s)]) := by
+  rcases c18_subscribe_exit_no_reserved_slot st r uid t um with ⟨s, h1, _, h3⟩ | ⟨h1, h2, _, o, ho, hno⟩
+  · refine Or.inr ⟨s, h1, h3, ?_⟩
+    -- which `s`: the one the response carries
+    unfold completeSubscribe at h3 ⊢
+    cases hp : r.payload with
+    | error e =>
+      simp only [hp] at h3
+      have := congrArg (fun m => m.subs) h3
+      simp only [(releaseReservedSlot_others st.mgr uid).1] at this
+      exact absurd this (by intro e; have := congrArg List.length e; simp at this)
+    | result raw =>
+      simp only [hp] at h3 ⊢
+      cases hd : decodeSubId raw with
+      | none =>
+        simp only [hd] at h3
+        have := congrArg (fun m => m.subs) h3
+        simp only [(releaseReservedSlot_others st.mgr uid).1] at this
+        exact absurd this (by intro e; have := congrArg List.length e; simp at this)
+      | some s' =>
+        simp only [hd] at h3 ⊢
+        cases hins : st.mgr.insertSubscription r.id uid s' st.chans.length um with
+        | none =>
+          simp only [hins] at h3
+          have := congrArg (fun m => m.subs) h3
+          simp only [(releaseReservedSlot_others st.mgr uid).1] at this
+          exact absurd this (by intro e; have := congrArg List.length e; simp at this)
+        | some m' =>
+          obtain ⟨_, _, e⟩ := insertSubscription_spec _ _ _ _ _ _ _ hins
+          simp only [hins, hgone, Bool.false_eq_true, if_false, abandonedSubscribe, modChan_mgr] at h3 ⊢
+          have hs : s' = s := by
+            have h4 : m' = _ := h3
+            rw [e] at h4
+            have := congrArg (fun m => m.subs) h4
+            simp at this
+            exact this
+          subst hs
+          rfl
+  · refine Or.inl ⟨h1, h2, o, ?_, hno⟩
+    rw [ho]; unfold Core.completeIfAlive; simp [hgone]
+
+/-- `{"jsonrpc":"2.0","id":0,"error":{"code":-32000,"message":"no"}}` refuses subscribe 0 whose caller has gone -/
+def refusedAfterAbandon : List Step := [.newSubscribe tSubM tUnsubM, .sendTask 0, .abandon 0, .recv tRefuse]
+
+example : (run (St.init 2 false) (refusedAfterAbandon.take 3)).1.core.mgr.sizes = (2, 0, 0, 0) ∧
+    (run (St.init 2 false) refusedAfterAbandon).1.core.mgr.sizes = (0, 0, 0, 0) ∧
+    quiescentB (run (St.init 2 false) refusedAfterAbandon).1 (run (St.init 2 false) refusedAfterAbandon).2 = true ∧
+    (step (run (St.init 2 false) refusedAfterAbandon).1 (.recv tAck1)).fatal = some (.notPending (.num 1)) := by decide
+
 end Jrpc.Client
